@@ -552,8 +552,9 @@ def case_copy_beyond(r, ctx, nops):
     fs = g.fl.fsize
     siz = r.randrange(1, fs)
     g.emit("cp %d %d %d" % (r.randrange(0, fs - siz + 1), siz, fs - r.randrange(0, siz)))
+    g.emit("r 0 %d" % (fs + 2 * PS))      # before `st`: a read that crosses the logical size must stop there
+    g.emit("r %d %d" % (fs - r.randrange(0, 50), 2 * PS))
     g.emit("st")
-    g.emit("r 0 %d" % (fs + 2 * PS))
     if r.random() < 0.5:
         g.emit("es %d" % (fs + r.randrange(1, 3 * PS)))
         g.emit("r 0 %d" % (fs + 4 * PS))
@@ -580,7 +581,7 @@ def case_odd(r, ctx, nops):
         elif x < 0.4:
             g.emit("r %d %d" % (r.choice([fs, fs + 1, fs + PS, 1 << 40, 1 << 61]), r.choice([0, 1, 1 << 20])))
         elif x < 0.5:
-            g.emit("am %d %d %d" % (r.choice([1, PS - 1, PS + 1, 0, PS]), r.choice([0, 0, 1, PS]), r.randrange(0, 4)))
+            g.emit("am %d %d %d" % (r.choice([1, PS - 1, PS + 1, 0, PS]), r.choice([0, 0, 1, PS]), r.choice([0, 2])))   # shared only: private windows have their own streams
         elif x < 0.6:
             siz = r.randrange(0, min(3 * PS, fs + 1))      # source may end past the file; the destination stays inside (see copy-beyond)
             g.emit("cp %d %d %d" % (r.randrange(0, fs + PS), siz, r.randrange(0, fs - siz + 1)))
